@@ -2,6 +2,7 @@
 # usage: bin/seedrun.sh <seeded-name> <tier> <ID> [ID...]   — apply seeded patch to /repo, run checks, revert.
 NAME="$1"; TIER="$2"; shift 2
 cd /repo && git diff --quiet || { echo "/repo dirty"; exit 2; }
+trap "git -C /repo checkout -- ." EXIT INT TERM
 git -C /repo apply /verif/seeded/$NAME/patch.diff || { echo 'patch does not apply'; exit 2; }
 for id in "$@"; do
   echo "=== $id on seeded/$NAME"
